@@ -141,6 +141,24 @@ def run(ctx):
             ctx.violation("R20.2", c.qualname, n, loc(c, n), "%s calls _extract_context outside _create_event_list, "
                           "without the final sweep" % c.short)
 
+    # after Delay splitting the time points are those of the split table: nothing may size or bound by the input's onsets
+    ctx.rule("R20.3", "time-point counts after Delay splitting come from the split table, not from the input's onset column")
+    split_nodes = [n for (n, c) in vc.calls(lambda c: call_name(c) == "split_delay_tags")]
+    if split_nodes:
+        after = vc.cfg.reachable_from(split_nodes[0], True) - {split_nodes[0]}
+        pname = create.params()[1] if len(create.params()) > 1 else "input_data"
+        n_len = 0
+        for n in after:
+            for c in vc.node_calls(n):
+                if call_name(c) in ("len", "range") and c.args:
+                    n_len += 1
+                    ctx.check(not any(isinstance(x, ast.Name) and x.id == pname for x in ast.walk(c)), "R20.3", create.qualname,
+                              c, loc(create, c),
+                              "`%s` sizes by the input table's rows; after Delay splitting there are more time points than rows, "
+                              "so a process that is still open at the end of the file is cut short by the number of delayed "
+                              "groups" % norm(c)[:50], desc="`%s` sized by the split table" % norm(c)[:40])
+        ctx.floor("R20.3", "len()/range() uses after the Delay split", n_len, 2)
+
     # popped events are ended
     vt = view(ctx, temporal)
     pops = []
